@@ -190,6 +190,11 @@ func (rc *runCtx) runChild(ps partSpec, shard, shards, only int, tier string) *c
 	if ps.Flavour == "race" {
 		env = append(env, "GORACE=halt_on_error=0 history_size=3 log_path="+filepath.Join(rc.work, tag+".race"))
 	}
+	if ps.Flavour == "ft" {
+		// Under the frozen fake clock the runtime's stop-the-world / forEachP retry timeouts never expire
+		// (nanotime stands still), so a lost race in a GC cycle would hang forever: run ft children without GC.
+		env = append(env, "GOGC=off")
+	}
 	env = append(env, "GOTRACEBACK=all")
 	if ps.Procs > 0 {
 		env = append(env, "GOMAXPROCS="+strconv.Itoa(ps.Procs))
